@@ -41,7 +41,9 @@ func TestC05Supply(t *testing.T) {
 			ev.Infra(t, "build genesis: %v", err)
 		}
 		sim, err := chain.NewSim(spec, []chain.ReplicaConfig{{Name: "R0", Backend: rapid.SampledFrom(chain.Backends).Draw(t, "backend"), MemoryOnly: true,
-			Keys: w0.Entities[0].Nodes[0], Sanity: true}})
+			// (the in-tree sanity checker is a second opinion in half of the cases; in the other half the harness's
+			// own recomputation is the only judge, so that it is exercised on states the checker would have stopped)
+			Keys: w0.Entities[0].Nodes[0], Sanity: rapid.Bool().Draw(t, "sanityApp")}})
 		if err != nil {
 			var ig chain.ErrInvalidGenesis
 			if errors.As(err, &ig) {
@@ -95,6 +97,9 @@ func TestC05Supply(t *testing.T) {
 			view.Close()
 			b := bg.Block
 			if _, err := sim.E.Propose(b, r, r); err != nil {
+				if strings.Contains(err.Error(), "supplementarysanity") {
+					fail("sanity-checker-disagrees", "height %d: the in-tree sanity checker failed while the block was being proposed: %v", b.Height, err)
+				}
 				rec.Discard("proposal-failed:" + firstWords(err.Error(), 12))
 				return
 			}
